@@ -234,6 +234,8 @@ def frames_agree(it, check_types, check_extra_cols, check_order, check_data, con
     missing = [c for c in types if c not in dfc]
     if missing:
         return False
+    if [c for c in data if c not in dfc]:
+        return False                  # a column whose values are to be compared is not there: a described failure
     if [c for c in extra if c not in refc]:
         return False
     if order is not None:
@@ -328,7 +330,8 @@ def _cd_contract(key, layouts=None, **flags):
                  on_entry=_cd_entry, inline=[CP + 'resolve_option_flag', 'tdda/utils.py::nvl'],
                  spec_env=dict(PRIMS, frames_agree=frames_agree, data_compared_as_selected=data_compared_as_selected,
                                data_cols_present=data_cols_present, type_level_ok=type_level_ok),
-                 allow_raise={'KeyError': 'not data_cols_present(check_data, check_types)'},
+                 # (no exception is allowed: "never as an internal error" -- a data column that the actual frame lacks
+                 # must be a described failure, also when the type check does not cover it)
                  ensures=_CD_ENS, name='check_dataframe[%s]' % key, max_paths=200000)
     c.layouts = layouts or DF_LAYOUTS
     REGISTRY[c.ident + '#' + key] = c
